@@ -43,6 +43,7 @@ type Scenario struct {
 	Mode       string     `json:"mode"`    // par | max1 | max2 | max3 | serial
 	Cancel     bool       `json:"cancel,omitempty"`
 	Buffer     bool       `json:"buffer,omitempty"`
+	BigOutput  bool       `json:"big_output,omitempty"`  // every task attempt writes more than 64 KiB
 	Shared     []int      `json:"shared,omitempty"`      // second graph run concurrently, made of these (shared) tasks, no edges
 	SharedMode string     `json:"shared_mode,omitempty"` // mode of the second graph (par | serial)
 	Rerun      bool       `json:"rerun,omitempty"`       // call Run a second time on the same graph
@@ -273,6 +274,7 @@ type run struct {
 	outMarks  []string // chunk markers in arrival order
 	stdoutBad bool
 	capacity  int
+	por       bool
 }
 
 func (r *run) fail(prop, format string, a ...any) {
@@ -308,10 +310,25 @@ func (w *outWriter) Write(p []byte) (int, error) {
 
 var discardLogger = log.New(io.Discard, "", 0)
 
+// 40 KiB of filler: two of them per attempt exceed any reasonable internal flush threshold
+var bigFiller = []byte(strings.Repeat("0123456789abcdef", 2560))
+
 // Execute runs the scenario once under the chooser and returns findings, observation and counters.
 func Execute(sc *Scenario, ch verifrt.Chooser, trace func(string)) ([]Finding, Obs, Counters, *verifrt.Result) {
+	return execute(sc, ch, trace, false)
+}
+
+// ExecutePOR is Execute arranged for the sleep-set exploration: every harness event is an
+// operation on the single harness object (so the reduction never reorders two of them and the
+// counter oracles stay valid), and the environment is one releaser thread per task instead of
+// one thread with an internal choice.
+func ExecutePOR(sc *Scenario, ch verifrt.Chooser, trace func(string)) ([]Finding, Obs, Counters, *verifrt.Result) {
+	return execute(sc, ch, trace, true)
+}
+
+func execute(sc *Scenario, ch verifrt.Chooser, trace func(string), por bool) ([]Finding, Obs, Counters, *verifrt.Result) {
 	dag.Logger = discardLogger
-	r := &run{sc: sc, m: declared(sc), released: map[*attemptRec]bool{}}
+	r := &run{sc: sc, m: declared(sc), released: map[*attemptRec]bool{}, por: por}
 	r.nGraphs = 1
 	if len(sc.Shared) > 0 {
 		r.nGraphs = 2
@@ -361,6 +378,9 @@ type graphKey struct{}
 func (r *run) body(i int, ctx context.Context) error {
 	sc := r.sc
 	g := r.graphOf(ctx)
+	if r.por {
+		verifrt.HarnessPoint("enter " + tid(i))
+	}
 	rec := &attemptRec{task: i, attempt: len(r.attempts[i]), enterVC: verifrt.CurrentVC(), thread: verifrt.CurrentThread(), graph: g}
 	// ---- oracles at entry
 	r.cnt.Enters++
@@ -452,7 +472,13 @@ func (r *run) body(i int, ctx context.Context) error {
 			r.fail("C15", "output buffering is on but dag.Stdout(ctx) is the process stdout")
 		} else {
 			fmt.Fprintf(w, "<%s%d.1>", tid(i), rec.attempt)
+			if sc.BigOutput {
+				w.Write(bigFiller)
+			}
 			verifrt.Yield()
+			if sc.BigOutput {
+				w.Write(bigFiller)
+			}
 			fmt.Fprintf(dag.Stderr(ctx), "<%s%d.2>", tid(i), rec.attempt)
 		}
 	}
@@ -542,24 +568,55 @@ func (r *run) main() {
 			r.failed = true
 			verifrt.Emit("cancel", "", 0)
 			verifrt.Close(hc.done)
+			verifrt.Emit("cancelled", "", 0)
 		})
 	}
 	// environment: decides which running task finishes next
-	verifrt.GoEnv("env", 2, func() {
-		for {
-			verifrt.Block("env", func() bool {
-				return len(r.awaiting) > 0 || verifrt.AliveNonEnv() == 0
+	if r.por {
+		for t := 0; t < n; t++ {
+			t := t
+			verifrt.GoEnv("rel-"+tid(t), 10+t, func() {
+				for {
+					var mine *attemptRec
+					verifrt.Block("release "+tid(t), func() bool {
+						mine = nil
+						for _, a := range r.awaiting {
+							if a.task == t {
+								mine = a
+							}
+						}
+						return mine != nil || verifrt.AliveNonEnv() == 0
+					})
+					if mine == nil {
+						return
+					}
+					for k, a := range r.awaiting {
+						if a == mine {
+							r.awaiting = append(r.awaiting[:k:k], r.awaiting[k+1:]...)
+							break
+						}
+					}
+					r.released[mine] = true
+				}
 			})
-			if len(r.awaiting) == 0 {
-				return
-			}
-			r.quiescent()
-			k := verifrt.Choose(len(r.awaiting), "finish")
-			rec := r.awaiting[k]
-			r.awaiting = append(r.awaiting[:k:k], r.awaiting[k+1:]...)
-			r.released[rec] = true
 		}
-	})
+	} else {
+		verifrt.GoEnv("env", 2, func() {
+			for {
+				verifrt.Block("env", func() bool {
+					return len(r.awaiting) > 0 || verifrt.AliveNonEnv() == 0
+				})
+				if len(r.awaiting) == 0 {
+					return
+				}
+				r.quiescent()
+				k := verifrt.Choose(len(r.awaiting), "finish")
+				rec := r.awaiting[k]
+				r.awaiting = append(r.awaiting[:k:k], r.awaiting[k+1:]...)
+				r.released[rec] = true
+			}
+		})
+	}
 	if len(sc.Shared) > 0 {
 		g2 := dag.NewGraph("g2")
 		if sc.SharedMode == "serial" {
@@ -592,6 +649,11 @@ func (r *run) main() {
 // quiescent is called by the environment thread before it lets a task finish.
 // If no other thread can move, the scheduler has had every chance to launch ready tasks.
 func (r *run) quiescent() {
+	for _, c := range r.sc.Hist {
+		if c.Op == "retries" && c.B < 0 {
+			return // outside the property's territory, see final()
+		}
+	}
 	if verifrt.OthersEnabled() != 0 || r.failed || r.cancelled || r.returned[0] || r.sc.History && (r.m.cycle || r.m.defError) {
 		return
 	}
@@ -652,6 +714,12 @@ func (r *run) final(res *verifrt.Result) {
 	var errs *dag.Errors
 	isErrs := errors.As(err, &errs)
 
+	// a negative retry count is outside what the property describes: only termination is judged
+	for _, c := range sc.Hist {
+		if c.Op == "retries" && c.B < 0 {
+			return
+		}
+	}
 	// ---- definition errors and cycles (C16)
 	if m.cycle || m.defError {
 		if err == nil {
@@ -696,6 +764,23 @@ func (r *run) final(res *verifrt.Result) {
 	for _, e := range res.Events {
 		if e.Name == "closed-seen" && e.Thread == 0 && cancelSeenStep < 0 {
 			cancelSeenStep = e.Step
+		}
+	}
+	// responsiveness: a whole polling iteration of Run (from the end of one sleep to the beginning of
+	// the next) that lies entirely after cancel() must have looked at the context
+	if sc.Cancel && !sc.Rerun {
+		cancelledAt, lastWake := -1, 0
+		for _, e := range res.Events {
+			switch {
+			case e.Name == "cancelled":
+				cancelledAt = e.Step
+			case e.Thread == 0 && e.Name == "sleep-end":
+				lastWake = e.Step
+			case e.Thread == 0 && e.Name == "sleep-begin":
+				if cancelledAt >= 0 && cancelledAt < lastWake && (cancelSeenStep < 0 || cancelSeenStep > e.Step) {
+					r.fail("C14", "Run went through a whole polling iteration after the context had been cancelled (cancel at step %d, iteration from step %d to %d) without looking at it: cancellation during the last wave of tasks is never observed", cancelledAt, lastWake, e.Step)
+				}
+			}
 		}
 	}
 	if cancelSeenStep >= 0 {
@@ -812,8 +897,15 @@ func (r *run) final(res *verifrt.Result) {
 		for t := 0; t < sc.N; t++ {
 			for _, a := range r.attemptsOf(t, 0) {
 				want := fmt.Sprintf("<%s%d.1><%s%d.2>", tid(t), a.attempt, tid(t), a.attempt)
+				if sc.BigOutput {
+					want = fmt.Sprintf("<%s%d.1>%s%s<%s%d.2>", tid(t), a.attempt, bigFiller, bigFiller, tid(t), a.attempt)
+				}
 				if strings.Count(out, want) != 1 {
-					r.fail("C15", "output of task %s attempt %d is not one contiguous block in the writer: %q", tid(t), a.attempt, out)
+					shown := out
+					if len(shown) > 200 {
+						shown = shown[:100] + " ... " + shown[len(shown)-100:]
+					}
+					r.fail("C15", "output of task %s attempt %d is not one contiguous block in the writer (%d bytes received): %q", tid(t), a.attempt, len(out), shown)
 				}
 			}
 		}
